@@ -15,7 +15,7 @@ use tvh::guarded;
 use tvh::out::CaseOut;
 use tvh::rng::Rng;
 
-use super::c08_columnar::{check_column, gen_rows, observe, Kind, Val};
+use super::c08_columnar::{check_column, f82_column, gen_rows, observe, Kind, Val};
 
 struct FieldSpec { name: &'static str, kind: Kind, shape: u64, json_path: Option<&'static str> }
 
@@ -138,8 +138,36 @@ fn one_index(rng: &mut Rng, out: &mut CaseOut, ix: usize, thorough: bool) -> Res
         }
         writer.commit().map_err(|e| e.to_string())?;
     }
+    // some segments become LEGACY segments: their fast field file is re-encoded in the columnar format v1 (same content),
+    // as if they had been written by an older version of the library
+    let mut legacy_segments: BTreeSet<tantivy::index::SegmentId> = BTreeSet::new();
+    {
+        use std::io::Write;
+        use tantivy::directory::TerminatingWrite;
+        use tantivy::Directory;
+        for meta in index.searchable_segment_metas().map_err(|e| e.to_string())? {
+            if !rng.chance(1, 2) { continue; }
+            let path = meta.relative_path(tantivy::index::SegmentComponent::FastFields);
+            let dir = index.directory();
+            let bytes = dir.open_read(&path).map_err(|e| e.to_string())?.read_bytes().map_err(|e| e.to_string())?.as_slice().to_vec();
+            let (v1, _) = super::c08_legacy::to_legacy_v1(&bytes)?;
+            dir.delete(&path).map_err(|e| e.to_string())?;
+            let mut w = dir.open_write(&path).map_err(|e| e.to_string())?;
+            w.write_all(&v1).map_err(|e| e.to_string())?;
+            w.terminate().map_err(|e| e.to_string())?;
+            legacy_segments.insert(meta.id());
+            out.count("tantivy_legacy_v1_segments", 1);
+        }
+    }
     let reader = index.reader().map_err(|e| e.to_string())?;
-    check_segments(&reader.searcher(), &docs, None, rng, out, ix, "before-merge")?;
+    let no_known: BTreeSet<&'static str> = BTreeSet::new();
+    let seg_docs = check_segments(&reader.searcher(), &docs, None, &no_known, rng, out, ix, "before-merge")?;
+    // fields in the class of F82: multivalued with value-less documents in some legacy segment
+    let mut f82_fields: BTreeSet<&'static str> = BTreeSet::new();
+    for (sid, ids) in &seg_docs {
+        if !legacy_segments.contains(sid) { continue; }
+        for f in FIELDS.iter() { let rows: Vec<Vec<Val>> = ids.iter().map(|&i| docs[i][f.name].clone()).collect(); if f82_column(&rows) { f82_fields.insert(f.name); } }
+    }
 
     // deletes, then merge everything
     let mut deleted = vec![false; docs.len()];
@@ -151,14 +179,18 @@ fn one_index(rng: &mut Rng, out: &mut CaseOut, ix: usize, thorough: bool) -> Res
     reader.reload().map_err(|e| e.to_string())?;
     let searcher = reader.searcher();
     out.spec_checked(searcher.segment_readers().len() <= 1, json!({"what": "merge left more than one segment", "index": ix}));
-    check_segments(&searcher, &docs, Some(&deleted), rng, out, ix, "after-merge")?;
+    // without deletes the merge stacks the segments: F82 applies to the fields found above
+    let known = if deleted.iter().any(|&d| d) { no_known.clone() } else { f82_fields };
+    check_segments(&searcher, &docs, Some(&deleted), &known, rng, out, ix, "after-merge")?;
     out.count("tantivy_indexes", 1);
     out.count("tantivy_docs", docs.len() as u64);
     Ok(())
 }
 
-fn check_segments(searcher: &tantivy::Searcher, docs: &[BTreeMap<&'static str, Vec<Val>>], deleted: Option<&[bool]>, rng: &mut Rng, out: &mut CaseOut, ix: usize, phase: &str) -> Result<(), String> {
+fn check_segments(searcher: &tantivy::Searcher, docs: &[BTreeMap<&'static str, Vec<Val>>], deleted: Option<&[bool]>, known_f82: &BTreeSet<&'static str>, rng: &mut Rng, out: &mut CaseOut, ix: usize, phase: &str)
+    -> Result<Vec<(tantivy::index::SegmentId, Vec<usize>)>, String> {
     let mut seen = vec![false; docs.len()];
+    let mut seg_docs = vec![];
     for (si, seg) in searcher.segment_readers().iter().enumerate() {
         let ff = seg.fast_fields();
         let ids_col = ff.u64("id").map_err(|e| e.to_string())?;
@@ -169,6 +201,7 @@ fn check_segments(searcher: &tantivy::Searcher, docs: &[BTreeMap<&'static str, V
         out.spec_checked(ids_ok, json!({"what": "id fast field returned an unknown id", "index": ix, "phase": phase}));
         if !ids_ok { continue; }
         for &i in &ids { seen[i] = true; }
+        seg_docs.push((seg.segment_id(), ids.clone()));
         if let Some(del) = deleted { out.spec_checked(ids.iter().all(|&i| !del[i]), json!({"what": "merged segment holds a deleted document", "index": ix})); }
         for f in FIELDS.iter() {
             let expected: Vec<Vec<Val>> = ids.iter().map(|&i| docs[i][f.name].clone()).collect();
@@ -201,7 +234,8 @@ fn check_segments(searcher: &tantivy::Searcher, docs: &[BTreeMap<&'static str, V
                     let fail = check_column(&expected, f.kind, &obs, rng, out, &ctx);
                     let mut c2 = ctx.clone();
                     if let Some(fm) = &fail { c2["what"] = json!(format!("tantivy fast field: {}", fm)); }
-                    out.spec_checked(fail.is_none(), c2);
+                    if fail.is_some() && known_f82.contains(f.name) { c2["known"] = json!("F82"); out.n_spec += 1; out.spec_fail.push(c2); out.count("f82_stack_of_legacy_multivalued_with_empty_rows", 1); }
+                    else { out.spec_checked(fail.is_none(), c2); }
                     out.count("tantivy_columns_checked", 1);
                 }
             }
@@ -212,6 +246,7 @@ fn check_segments(searcher: &tantivy::Searcher, docs: &[BTreeMap<&'static str, V
         let c = seg.fast_fields().u64("id").unwrap(); (0..seg.max_doc()).map(|d| c.first(d).map(|v| v as usize).unwrap_or(usize::MAX)).collect() }).collect();
     if !seg_ids.is_empty() && seg_ids.iter().flatten().all(|&i| i < docs.len()) {
         for fname in ["u_full", "u_opt", "u_multi", "i_opt", "i_multi", "d_nanos"] {
+            if known_f82.contains(fname) { continue; }     // merged column corrupted by the known finding F82: reported above
             let field = searcher.schema().get_field(fname).map_err(|e| e.to_string())?;
             let mapped = |v: &Val| -> u64 { match v { Val::U(x) => *x, Val::I(x) => x.to_u64(), Val::D(n) => n.to_u64(), _ => 0 } };
             let term = |m: u64| -> Term { match fname.as_bytes()[0] { b'u' => Term::from_field_u64(field, m), b'i' => Term::from_field_i64(field, i64::from_u64(m)), _ => Term::from_field_date(field, DateTime::from_timestamp_nanos(i64::from_u64(m))) } };
@@ -253,5 +288,5 @@ fn check_segments(searcher: &tantivy::Searcher, docs: &[BTreeMap<&'static str, V
     // every live document is somewhere
     let missing = (0..docs.len()).filter(|&i| !seen[i] && !deleted.map(|d| d[i]).unwrap_or(false)).count();
     out.spec_checked(missing == 0, json!({"what": "documents missing from the segments", "index": ix, "phase": phase, "missing": missing}));
-    Ok(())
+    Ok(seg_docs)
 }
